@@ -21,6 +21,7 @@ import Driver.EvmLifecycle
 import Driver.TxValidate
 import Driver.InspectorHooks
 import Driver.Static
+import Driver.HandlerCfg
 /-! Line-protocol driver: one request per line on stdin, one reply per line on stdout.
 Stateless components are dispatched on the first token. A stateful component `X` adds a field
 `x : Driver.X.St := Driver.X.St.init` to `DState`, resets it on `begin x …` and threads it through
@@ -40,6 +41,7 @@ structure DState where
   lc : Driver.EvmLifecycle.St := Driver.EvmLifecycle.St.init
   txv : Driver.TxValidate.St := {}
   hooks : Driver.InspectorHooks.St := Driver.InspectorHooks.St.init
+  hcfg : Driver.HandlerCfg.St := Driver.HandlerCfg.St.init
   -- stateful component states go here
 
 def step (st : DState) (line : String) : DState × String :=
@@ -79,6 +81,9 @@ def step (st : DState) (line : String) : DState × String :=
   | "begin" :: "hooks" :: r => let (s, o) := Driver.InspectorHooks.begin r; ({ st with hooks := s }, o)
   | "hk" :: r => let (s, o) := Driver.InspectorHooks.handle st.hooks r; ({ st with hooks := s }, o)
   | "static" :: r => (st, Driver.Static.handle r)
+  | "begin" :: "hcfg" :: r => let (s, out) := Driver.HandlerCfg.begin st.hcfg r; ({ st with hcfg := s }, out)
+  | "hcfg-build" :: r => let (s, out) := Driver.HandlerCfg.buildLine st.hcfg r; ({ st with hcfg := s }, out)
+  | "hcfg" :: r => let (s, out) := Driver.HandlerCfg.handle st.hcfg r; ({ st with hcfg := s }, out)
   | _ => (st, "bad-op")
 
 partial def loop (hin hout : IO.FS.Stream) (st : DState) : IO Unit := do
